@@ -104,7 +104,7 @@ func cmdDump(args []string) int {
 	lemma := fs.String("lemma", "", "")
 	ob := fs.String("ob", "", "obligation name substring")
 	fs.Parse(args)
-	w, err := loadWorld(*repo, []string{*pkg}, []string{filepath.Join(*verif, "contracts/trusted"), filepath.Join(*verif, "contracts/lemmas")})
+	w, err := loadWorld(*repo, strings.Split(*pkg, ","), []string{filepath.Join(*verif, "contracts/trusted"), filepath.Join(*verif, "contracts/lemmas")})
 	if err != nil {
 		fmt.Println(err)
 		return 1
